@@ -338,7 +338,7 @@ def
                     fun = define_new_function($3, $6.num_arg, 
                                               max_num_locals - $6.num_arg,
                                               $<number>8, $1 | $2);
-                    if (fun != -1)
+                    if (fun != (function_number_t)-1)   /* "Redeclaration of function" */
                         COMPILER_FUNC(fun)->address =
                             generate_function(COMPILER_FUNC(fun), $9, max_num_locals);
                 }
